@@ -71,8 +71,59 @@ def extra(sub, root):
     ).filter(lambda s: s not in names)
     # node-relative names: another spelling (snake_case, kebab-case, PascalCase, ...) of a property the node's own class
     # declares - resolved in body(), where the node is known; JSON-serialisable marker [mode, k]
-    respelt = st.tuples(st.sampled_from(RESPELL_MODES), st.integers(0, 200)).map(list)
+    respelt = st.tuples(st.sampled_from(RESPELL_MODES + ["hook-key", "hook-key"]), st.integers(0, 200)).map(list)
     return st.lists(st.tuples(st.integers(0, 10**6), st.one_of(fresh, fresh, respelt), tvgen.json_any), min_size=1, max_size=3)
+
+
+_HOOK_KEYS: dict = {}
+
+
+def hook_keys(sub) -> list:
+    """property names of the protocol that occur as string constants in the package's hand-written modules: the keys its
+    hooks look for. Declared somewhere - but adding one to an object whose class (and whose sibling alternatives, at a
+    union) does not declare it is adding an undeclared property to that object."""
+    if id(sub) not in _HOOK_KEYS:
+        from .c11 import package_constants
+        names = declared_names(sub)
+        _HOOK_KEYS[id(sub)] = [w for w in package_constants(sub)["str"] if w in names]
+    return _HOOK_KEYS[id(sub)]
+
+
+def locally_declared(sub, tv: TV, path: tuple) -> set:
+    """names declared by the class of the object node at `path`, and by every alternative of the union(s) it sits under"""
+    from ..tvgen import U
+    nodes = {p_: n for p_, n in walk(tv)}
+    node = nodes[path]
+    names = {p["name"] for p in sub.objects.props(node.key)}
+    m = sub.model
+
+    def collect(t: dict, depth: int = 0) -> None:
+        if depth > 6:
+            return
+        t = m.resolve_alias(t)
+        if t["kind"] == "reference" and t["name"] in m.structs:
+            names.update(p["name"] for p in m.flat_props(t["name"]))
+        elif t["kind"] == "literal":
+            names.update(p["name"] for p in t["value"]["properties"])
+        elif t["kind"] in ("or", "and", "tuple"):
+            for it in t["items"]:
+                collect(it, depth + 1)
+        elif t["kind"] == "array":
+            collect(t["element"], depth + 1)
+        elif t["kind"] == "map":
+            collect(t["value"], depth + 1)
+
+    p_ = path
+    while p_:   # every union (and the arrays of unions) on the way up, as far as the chain of wrappers goes
+        p_ = p_[:-1]
+        parent = nodes.get(p_)
+        if isinstance(parent, U):
+            ty = sub.objects.type_at.get(parent.occ)
+            if ty is not None:
+                collect(ty)
+        elif isinstance(parent, S):
+            break
+    return names
 
 
 RESPELL_MODES = ["snake", "kebab", "pascal", "upper-snake", "trailing-underscore", "dotted", "lower"]
@@ -92,6 +143,9 @@ def resolve_name(sub, node_tv, node_json: dict, name) -> str:
     if isinstance(name, str):
         return name
     mode, k = name
+    if mode == "hook-key":
+        keys = hook_keys(sub)
+        return keys[k % len(keys)] if keys else None
     declared = [p["name"] for p in sub.objects.props(node_tv.key)]
     if not declared:
         return None
@@ -133,7 +187,10 @@ def body(sub, root: tuple, tv: TV, extra=None) -> List[Tuple[str, str, str, str]
         node = json_at(jp, path)
         tvn = [n for p, n in walk(tv) if p == path][0]
         if isinstance(node, dict):
+            is_hook_key = isinstance(name, list) and name[0] == "hook-key"
             name = resolve_name(sub, tvn, node, name)
+            if is_hook_key and name is not None and name in locally_declared(sub, tv, path):
+                name = None
         if isinstance(node, dict) and name is not None and name not in node:
             node[name] = payload
             where.append(":".join(str(x) for x in tvn.key))
@@ -167,7 +224,9 @@ def body(sub, root: tuple, tv: TV, extra=None) -> List[Tuple[str, str, str, str]
 valuecheck.register("C15", body, None, extra)
 
 
-PINNED_NAMES = ["x", "", "Kind", ["snake", 0], ["pascal", 1], "self", "id ", ["lower", 2], "__proto__", "uri_"]
+PINNED_NAMES = ["x", ["hook-key", 0], "", ["hook-key", 1], "Kind", ["snake", 0], ["hook-key", 2], ["pascal", 1], "self", ["hook-key", 3], "id ", ["lower", 2],
+                ["hook-key", 4], "__proto__", ["hook-key", 5], "uri_", ["hook-key", 6], ["hook-key", 7], ["hook-key", 8], ["hook-key", 9], ["hook-key", 10],
+                ["hook-key", 11], ["hook-key", 12], ["hook-key", 13], ["hook-key", 14], ["hook-key", 15], ["hook-key", 16], ["hook-key", 17], ["hook-key", 18]]
 
 
 def _pinned_work(args) -> dict:
@@ -182,9 +241,29 @@ def _pinned_work(args) -> dict:
     for (occ, idx, root, route) in items:
         strat = tvgen.value_strategy(sub.objects, root, tvgen.GenCfg(route=route, max_nodes=120))
 
+        swept = [False]
+
         def one(x):
             tv, _ = x
             paths = object_paths(tv)
+            if not swept[0]:
+                # the object that IS the pinned alternative: every key the package's hooks look for that neither its class
+                # nor a sibling alternative declares
+                swept[0] = True
+                from ..tvgen import U
+                alt_paths = [p_ + (("u",),) for p_, n in walk(tv) if isinstance(n, U) and n.occ == occ and n.idx == idx]
+                for ap in alt_paths[:1]:
+                    if ap in paths:
+                        ni = paths.index(ap)
+                        local = locally_declared(sub, tv, ap)
+                        for hk, key in enumerate(hook_keys(sub)):
+                            if key in local:
+                                continue
+                            extra_ = [[ni, ["hook-key", hk], [None, 1, "x", {"a": 1}][hk % 4]]]
+                            res["evaluations"] += 1
+                            res["hook_key_probes"] = res.get("hook_key_probes", 0) + 1
+                            for f in body(sub, root, tv, extra_):
+                                lctx.finding((f[0], f[1], f[2]), f[3] + f" [key {key!r}]", {"root": list(root), "json": erase(tv), "tv": to_json(tv), "extra": extra_})
             for ni in range(min(len(paths), 10)):
                 name = PINNED_NAMES[(ni + res["evaluations"]) % len(PINNED_NAMES)]
                 payload = [None, 1, {"a": None}, "s", [1, {}], True][(ni + res["evaluations"]) % 6]
